@@ -58,6 +58,10 @@ func streamPaths(s *stream.Stream, c *streamCtx) error {
 		{[]string{}, true},
 		// ignore entries in non-canonical spelling (trailing slash, ./ prefix, doubled separator)
 		{[]string{"ignoredir/", "./pkg/l0", "nested//sub", "./pkg/l0/ignored_file.go"}, false},
+		// entries that sort between an ignored directory and the paths below it (a sorted index must
+		// not lose the directory): a sibling extending the name with a byte below '/', an entry inside it
+		{[]string{"ignoredir", "ignoredir-old", "ignoredir.go", "ignoredir/sub", "pkg", "pkg-x", "pkg/l0/a.go"}, false},
+		{[]string{"sub.go", "sub", "sub/l0", "pkg/l0", "pkg/l0-util", "pkg/l0.v2"}, true},
 	}
 	depth := 2
 	if c.thorough() {
